@@ -210,7 +210,7 @@ theorem last_turn_ne_last (x0 : Int) (xs w0 : List Int) (a l : Int) (hal : a ≠
 /-! ### no ties when the first pass flushes -/
 
 theorem adjustFirstRun_reps (s' : List Vec) :
-    (adjustFirstRun s').1.map rep = 0 :: s'.map rep := by
+    (adjustFirstRunR s').1.map rep = 0 :: s'.map rep := by
   rw [adjustFirstRun_fst, List.map_cons, rep_replicate_zero]
 
 theorem split_last (Q : List Int) (hQ : Q ≠ []) :
@@ -232,9 +232,9 @@ theorem split_last2 (Q : List Int) (hQ : Q ≠ []) :
     _ = _ := by rw [List.append_assoc]; rfl
 
 /-- if the first pass flushes, the last step of the zero-prefixed sequence is not zero -/
-theorem flag_last_step (s' : List Vec) (hf : (adjustFirstRun s').2 = true) :
+theorem flag_last_step (s' : List Vec) (hf : (adjustFirstRunR s').2 = true) :
     ∃ w0 a l, a ≠ l ∧ (0 :: s'.map rep) = w0 ++ [a, l] := by
-  unfold adjustFirstRun at hf
+  unfold adjustFirstRunR at hf
   simp only [List.map_cons, rep_replicate_zero, List.tail_cons, List.length_cons,
     Nat.add_sub_cancel] at hf
   rw [List.contains_iff_mem] at hf
@@ -255,37 +255,37 @@ theorem flag_last_step (s' : List Vec) (hf : (adjustFirstRun s').2 = true) :
 
 /-- **No ties.**  If the first pass flushes, then in both passes consecutive fed turning points have
 different first-node loads (the check against the last one fed in pass 2 is not needed). -/
-theorem chains_of_flush (law : Law) (s' : List Vec) (hf : (adjustFirstRun s').2 = true) :
-    chainNe 0 ((procLoads {} (adjustFirstRun s').1 true).map rep) ∧
-    chainNe (process law {} (adjustFirstRun s').1 true).prevLoad
-      (((procLoads (process law {} (adjustFirstRun s').1 true) s' true).map rep).dropLast) := by
+theorem chains_of_flush (law : Law) (s' : List Vec) (hf : (adjustFirstRunR s').2 = true) :
+    chainNe 0 ((procLoads {} (adjustFirstRunR s').1 true).map rep) ∧
+    chainNe (process law {} (adjustFirstRunR s').1 true).prevLoad
+      (((procLoads (process law {} (adjustFirstRunR s').1 true) s' true).map rep).dropLast) := by
   obtain ⟨w0, a, l, hal, hw⟩ := flag_last_step s' hf
-  have hne1 : (adjustFirstRun s').1 ≠ [] := by rw [adjustFirstRun_fst]; exact List.cons_ne_nil _ _
+  have hne1 : (adjustFirstRunR s').1 ≠ [] := by rw [adjustFirstRun_fst]; exact List.cons_ne_nil _ _
   have hq : s' ≠ [] := by
     intro h; rw [h] at hw
     have := congrArg List.length hw
     simp at this
-  have hlast : ((adjustFirstRun s').1.map rep).getLast (by simpa using hne1) = l := by
+  have hlast : ((adjustFirstRunR s').1.map rep).getLast (by simpa using hne1) = l := by
     simp only [adjustFirstRun_reps, hw]; simp
   have hlast' : (s'.map rep).getLast (by simpa using hq) = l := by
     have h1 : (0 :: s'.map rep).getLast (List.cons_ne_nil _ _) = l := by simp only [hw]; simp
     rw [List.getLast_cons (by simpa using hq)] at h1; exact h1
-  have hl1 := procLoads_init_flush (adjustFirstRun s').1 hne1
+  have hl1 := procLoads_init_flush (adjustFirstRunR s').1 hne1
   rw [hlast] at hl1
-  have hval : ((findTurns ((adjustFirstRun s').1.map rep)).map (·.2)).getLastD 0 ≠ l := by
+  have hval : ((findTurns ((adjustFirstRunR s').1.map rep)).map (·.2)).getLastD 0 ≠ l := by
     rw [adjustFirstRun_reps]
     exact last_turn_ne_last 0 (s'.map rep) w0 a l hal hw
   refine ⟨?_, ?_⟩
   · rw [hl1, chainNe_append_singleton]
     refine ⟨?_, hval⟩
     rw [adjustFirstRun_reps]; exact findTurns_chainNe 0 _
-  · have hprev : (process law {} (adjustFirstRun s').1 true).prevLoad = l := by
+  · have hprev : (process law {} (adjustFirstRunR s').1 true).prevLoad = l := by
       rw [process_prevLoad, hl1, List.getLastD_eq_getLast?]; simp
-    have hts : (process law {} (adjustFirstRun s').1 true).ts =
-        { tail := [l], head := ((adjustFirstRun s').1.map rep).length } := by
+    have hts : (process law {} (adjustFirstRunR s').1 true).ts =
+        { tail := [l], head := ((adjustFirstRunR s').1.map rep).length } := by
       rw [process_ts, show ({} : State).ts = {} from rfl,
         newTurns_init_flush_fst _ (by simpa using hne1), hlast]
-    have hl2 := procLoads_tail1_flush (process law {} (adjustFirstRun s').1 true) l _
+    have hl2 := procLoads_tail1_flush (process law {} (adjustFirstRunR s').1 true) l _
       (by rw [adjustFirstRun_reps]; simp) hts s' hq
     rw [hprev, hl2, List.dropLast_concat]
     exact findTurns_chainNe l _
@@ -341,22 +341,22 @@ theorem newTurns_length_le_one (ts : TurnState) (xs : List Int) (flush : Bool)
 /-- For a sequence whose first-node loads are all equal, the first pass is fed nothing and the
 second pass at most one turning point. -/
 theorem loads_of_const (law : Law) (s : List Vec) (c : Int) (hc : ∀ x ∈ s.map rep, x = c) :
-    procLoads {} (adjustFirstRun (dropTrailingNonReversals s)).1
-        (adjustFirstRun (dropTrailingNonReversals s)).2 = [] ∧
-    (procLoads (process law {} (adjustFirstRun (dropTrailingNonReversals s)).1
-        (adjustFirstRun (dropTrailingNonReversals s)).2) (dropTrailingNonReversals s) true).length ≤ 1 := by
+    procLoads {} (adjustFirstRunR (dropTrailingNonReversals s)).1
+        (adjustFirstRunR (dropTrailingNonReversals s)).2 = [] ∧
+    (procLoads (process law {} (adjustFirstRunR (dropTrailingNonReversals s)).1
+        (adjustFirstRunR (dropTrailingNonReversals s)).2) (dropTrailingNonReversals s) true).length ≤ 1 := by
   have hcc : ∀ x ∈ s.map rep ++ s.map rep, x = c := by
     intro x hx; rcases List.mem_append.mp hx with h | h <;> exact hc x h
   have hdrop : dropTrailingNonReversals s = s := by
     unfold dropTrailingNonReversals
     simp [findTurns_const c _ hcc]
   rw [hdrop]
-  have hflag : (adjustFirstRun s).2 = false := by
-    unfold adjustFirstRun
+  have hflag : (adjustFirstRunR s).2 = false := by
+    unfold adjustFirstRunR
     simp only [List.map_cons, rep_replicate_zero, List.tail_cons, List.cons_append]
     rw [findTurns_zero_const c _ hcc]; rfl
   rw [hflag]
-  have hnt : newTurns {} ((adjustFirstRun s).1.map rep) false =
+  have hnt : newTurns {} ((adjustFirstRunR s).1.map rep) false =
       (canonTs (0 :: s.map rep), newTurnsOf [] (0 :: s.map rep)) := by
     rw [adjustFirstRun_reps]
     have := newTurns_canon [] (0 :: s.map rep) (List.cons_ne_nil _ _)
